@@ -18,6 +18,7 @@ EXPLANATION = (
     'Also decided: a blank PYROMETA tag set is rejected; tags are joined with the separator they are split on; the sqlite storage writes the given uri on every path. '
     'Also decided (round 10): The wire form of a URI/Proxy/Daemon carries __getstate__() unchanged; the parser stores the object part exactly as matched; the broadcast responder and locate_ns use one codec; set_metadata rewrites an entry under the lock hold it read it in (shared from C15). '
     'Also decided (round 9): lookup builds the returned URI from the entry read in that call, not from state kept on the name server. '
+    'Also decided (round 12): Replacing an entry on the sqlite back-end is one transaction (shared from C14/C15). '
     'Also decided (round 11): Empty PYROMETA tags never enter the tag set; __str__ joins the tag set exactly on the PYROMETA branch; the broadcast responder edits a copy of the uri made for the datagram. '
 )
 
@@ -407,6 +408,8 @@ def run(ctx, R, tier):
     except AnalysisError as _shared_x:
         R.note("obligations shared from C15 are incomplete on this tree: %s" % _shared_x)
     for o in R15.obs:
+        if o.key == "C15-R3|SqlStorage.__setitem__|one-transaction":
+            R.add("C19-R5", "SqlStorage.__setitem__|replacing-an-entry-is-one-transaction", o.desc + " (a refused update of a name leaves the uri that was stored under it in place)", o.ok, o.loc, o.detail)
         if o.key == "C15-R1|NameServer.set_metadata|compound-under-one-lock":
             R.add("C19-R5", "NameServer.set_metadata|uri-written-back-under-the-lock-it-was-read", o.desc + " (the stored uri text of a name is never replaced by a stale copy of itself)",
                   o.ok, o.loc, o.detail)
